@@ -9,6 +9,7 @@ import (
 	"path"
 	"sort"
 	"strings"
+	"unicode"
 
 	"github.com/tsawler/tabula/model"
 	"github.com/tsawler/tabula/rag"
@@ -783,7 +784,9 @@ func (r *Reader) markdown(opts ExtractOptions, titleLevel int) (string, error) {
 		}
 	}
 
-	return strings.TrimSpace(result.String()), nil
+	// Drop surrounding blank lines and trailing white space only: leading spaces are
+	// the indentation of a nested list item when the first slide starts with one.
+	return strings.TrimLeft(strings.TrimRightFunc(result.String(), unicode.IsSpace), "\n"), nil
 }
 
 // MarkdownWithRAGOptions returns presentation content as Markdown with RAG options.
